@@ -287,6 +287,7 @@ type variety struct {
 	LocalHold  int    // seconds, -1 = library default
 	RemoteHold uint16 // proposed by the remote
 	Reuse      bool   // outbound only
+	PriorIn    bool   // outbound only: an inbound session was Established and ended by a TCP close before
 	Slow       bool   // plugin callbacks sleep 0-3 virtual microseconds
 }
 
@@ -296,7 +297,14 @@ func pickVariety(r *rand.Rand, dir string) variety {
 		RemoteHold: []uint16{90, 90, 0, 30}[r.IntN(4)],
 		Reuse:      dir == "out" && r.IntN(3) == 0,
 		Slow:       r.IntN(3) == 0,
+	}.prior(r, dir)
+}
+
+func (v variety) prior(r *rand.Rand, dir string) variety {
+	if dir == "out" && !v.Reuse && r.IntN(3) == 0 {
+		v.PriorIn = true
 	}
+	return v
 }
 
 // apply configures the peer spec; existing callbacks are wrapped, not replaced.
@@ -341,5 +349,70 @@ func bringV(w *hz.World, ps hz.PeerSpec, dir, st string, v variety) *sess {
 	if v.Reuse && dir == "out" {
 		return bringReused(w, ps, st, v.RemoteHold)
 	}
+	if v.PriorIn && dir == "out" {
+		return bringAfterInbound(w, ps, st, v.RemoteHold)
+	}
 	return bring(w, ps, dir, st, v.RemoteHold)
+}
+
+// bringAfterInbound: an inbound session is Established and ended by the remote
+// closing TCP; corebgp then dials and that outbound connection is brought to st.
+func bringAfterInbound(w *hz.World, ps hz.PeerSpec, st string, hold uint16) *sess {
+	accept := false
+	w.DialPolicy = func(hz.DialReq) (hz.DialAction, time.Duration) {
+		if accept {
+			accept = false
+			return hz.DialAccept, 0
+		}
+		return hz.DialRefuse, 0
+	}
+	mon := w.MustAddPeer(ps)
+	in := w.Connect(ps.Addr)
+	if !in.Handshake(ps.RemoteAS, hold, remoteIDu) {
+		w.Violate("history setup: inbound session failed: %s", typesOf(in.Msgs()))
+		return nil
+	}
+	w.Settle()
+	for i := 0; i < 20 && !mon.Up(); i++ {
+		w.Settle()
+	}
+	if !mon.Up() {
+		w.Violate("history setup: inbound session did not establish")
+		return nil
+	}
+	accept = true
+	in.Close()
+	oc := w.WaitOut(1, time.Minute)
+	if oc == nil {
+		w.Violate("history setup: no outbound connection after the inbound session ended")
+		return nil
+	}
+	w.Settle()
+	s := &sess{w: w, mon: mon, rc: oc, ps: ps, dir: "out"}
+	if ms := oc.Msgs(); len(ms) != 1 || ms[0].Type != wire.TypeOpen {
+		w.Violate("history setup: outbound connection did not start with an OPEN: %s", typesOf(ms))
+		return nil
+	}
+	if st == stOpenSent {
+		return s
+	}
+	oc.SendOpen(oc.StdOpen(ps.RemoteAS, hold, remoteIDu))
+	w.Settle()
+	if ms := oc.Msgs(); len(ms) != 2 || ms[1].Type != wire.TypeKeepalive {
+		w.Violate("after an inbound session that ended by a TCP close, a valid OPEN on the next outbound connection was not answered by KEEPALIVE: %s", typesOf(ms))
+		return nil
+	}
+	if st == stOpenConfirm {
+		return s
+	}
+	oc.SendKeepalive()
+	w.Settle()
+	for i := 0; i < 20 && !mon.Up(); i++ {
+		w.Settle()
+	}
+	if eof, _ := oc.EOF(); eof || !mon.Up() {
+		w.Violate("after an inbound session that ended by a TCP close, the next outbound session did not establish: %s", typesOf(oc.Msgs()))
+		return nil
+	}
+	return s
 }
